@@ -14,12 +14,12 @@ def prop(pid, **kw):
 
 prop('C04', bounded=['validation_d'],
      explanation='contract obligations on the validator closures, generated from the real AST and discharged by SMT')
-prop('C07', bounded=['delims'], explanation='contracts on check_encoding_chars, _split_msh, get_message_info, default resolvers')
+prop('C07', ground=['astpass:c17_forwarding'], bounded=['delims'], explanation='contracts on check_encoding_chars, _split_msh, get_message_info, default resolvers')
 prop('C09', bounded=['histories'], explanation='functional postconditions of the ElementList mutators against the ordered-list model')
 prop('C10', bounded=['histories'], explanation='back-pointer and container-consistency postconditions of the attach path')
 prop('C11', bounded=['histories'], explanation='frame clauses of the read paths and the traversal (temporary parent) path')
 prop('C12', bounded=['histories'], explanation='exceptional postconditions (raises => view unchanged) of the mutators')
-prop('C13', bounded=['datatypes'], explanation='contracts on the format-selection helpers')
+prop('C13', ground=['astpass:c19_ownership'], bounded=['datatypes'], explanation='contracts on the format-selection helpers')
 prop('C14', bounded=['names'], explanation='contracts on name resolution (find_child_reference interface, _find_name, child_at_index)')
 prop('C15', bounded=['robust'], explanation='raises clauses: only declared exception classes escape the header functions')
 
@@ -35,15 +35,15 @@ prop('C02', ground=['tables:twf_segments', 'tables:twf_datatypes', 'tables:const
 prop('C06', bounded=['textual'],
      explanation='class-alphabet enumeration of the real _escape_value (both variants, several delimiter sets) up to a length '
                  'bound; delimiter-safety, idempotence and tokenisation checked on every string')
-prop('C03', bounded=['roundtrip'], explanation='end-to-end: same segments, same order, same leaves (bounded round-trip driver)')
+prop('C03', ground=['astpass:c17_forwarding'], bounded=['roundtrip'], explanation='end-to-end: same segments, same order, same leaves (bounded round-trip driver)')
 
-prop('C05', bounded=['validation_d', 'histories'],
+prop('C05', ground=['astpass:c17_forwarding'], bounded=['validation_d', 'histories', 'datatypes'],
      explanation='STRICT admission checks of the attach path under contract (cardinality, level, version); STRICT-built '
                  'instances validated, STRICT / TOLERANT lockstep in the bounded drivers')
-prop('C18', bounded=['validation_d'],
+prop('C18', ground=['astpass:c17_forwarding'], bounded=['validation_d'],
      explanation='no-op profile lemma on generated instances (bounded); reference threading contracts to follow')
 
-prop('C08', bounded=['names'],
+prop('C08', ground=['astpass:c19_ownership', 'astpass:c17_forwarding'], bounded=['names'],
      explanation='group finding on generated conforming instances (bounded); the recursive search is under contract')
 prop('C16', bounded=['mllp_d'],
      explanation='framing contract of to_mllp, routing contract of _route_message; the real server on loopback for every '
